@@ -19,6 +19,7 @@ fn uci_move_from_str_ascii_le5() {
             assert!(m.source.fen.as_bytes()[0] == bytes[0] && m.source.fen.as_bytes()[1] == bytes[1]);
             assert!(m.target.fen.as_bytes()[0] == bytes[2] && m.target.fen.as_bytes()[1] == bytes[3]);
             assert!(m.promote_to.is_some() == (len == 5));
+            if let Some(p) = m.promote_to { assert!(p.fen.to_ascii_lowercase() == (bytes[4] as char).to_ascii_lowercase()); }
         }
         Err(_) => assert!(!well_formed),
     }
